@@ -12,6 +12,10 @@ EXTENDS Registry, Json
 
 CONSTANTS MaxObj, Names, MaxHist
 
+\* "a.b": a name with a dot in it, as astbuilder gives to the setter of a property (configurations: DottedNames <- MCDotted)
+MCDotted == [x \in {"a.b", "a.a"} |-> IF x = "a.b" THEN <<"a", "b">> ELSE <<"a", "a">>]
+Dotted(n) == Len(Parts(n)) > 1
+
 VARIABLES st, hist
 vars == <<st, hist>>
 View == st
@@ -28,6 +32,8 @@ Add(c, n, p) == /\ ~st.crash /\ Len(st.objs) < MaxObj /\ Len(hist) < MaxHist
                 /\ KindFits(c, p)
                 \* module-level duplicates are handled by _handleDuplicateModule, not addObject
                 /\ (c \in {"Package", "Module"} => (IF p = NoObj THEN <<P(n)>> ELSE Append(FN(st, p), P(n))) \notin DOMAIN st.all)
+                \* dotted names are given to functions in classes only
+                /\ (Dotted(n) => c = "Function" /\ ClsOr(p) = "Class")
                 /\ st' = AddObj(st, c, n, p, 0)
                 /\ hist' = Append(hist, [a |-> "add", c |-> c, n |-> n, p |-> p, o |-> 0])
 \* the move astbuilder._handleReExport performs: an object found through `contents` goes into a module under a plain name
@@ -37,6 +43,7 @@ Move(o, m, n) == /\ ~st.crash /\ Len(hist) < MaxHist
                  /\ st.objs[o].par # NoObj /\ st.objs[o].par # m
                  /\ st.objs[o].name.d = 0 /\ st.objs[o].name.b \in DOMAIN st.cont[st.objs[o].par]
                  /\ st.cont[st.objs[o].par][st.objs[o].name.b] = o
+                 /\ ~Dotted(n)
                  /\ st' = Reparent(st, o, m, n)
                  /\ hist' = Append(hist, [a |-> "move", c |-> "", n |-> n, p |-> m, o |-> o])
 Next == \/ \E c \in {"Package", "Module", "Class", "Function", "Attribute"}, n \in Names, p \in 0..MaxObj : Add(c, n, p)
